@@ -16,7 +16,7 @@ Z3CLI = "/usr/bin/z3"
 def bytes_lit(b: bytes):
     if len(b) == 0:
         return z3.Empty(BYTES)
-    units = [z3.Unit(z3.BitVecVal(x, 8)) for x in b]
+    units = [z3.Unit(z3.IntVal(x)) for x in b]
     if len(units) == 1:
         return units[0]
     return z3.Concat(units)
